@@ -529,3 +529,128 @@ func RunRollback(c *ev.Case, e *Env, dir string, obs Observer) {
 
 // FundAt returns an outside BTM output that can pay a fee in the block after p.
 func (s *Session) FundAt(p *chainkit.Blk) *chainkit.UTXO { return s.fund(p, nil) }
+
+// RunMini is history class "mini-fork": the smallest back-and-forth
+// reorganisation around one block with a chosen wallet content.  Common chain of
+// 4 blocks (block 1 pays the wallet a normal and a vote output), block A1 with
+// the content under test, branch B (2 blocks) overtakes it, then A2, A3 bring
+// branch A back.  Variants of A1: 0 vote receipt, 1 spend of the normal output +
+// receipt, 2 veto of the vote output, 3 receipt and chained spend in one block.
+func RunMini(c *ev.Case, e *Env, dir string, obs Observer) {
+	rng := c.Rand
+	s, err := NewSession(c, e, dir, obs)
+	if err != nil {
+		c.Inconclusive("setup: %v", err)
+		return
+	}
+	defer s.Close()
+	net := e.Net
+	g := s.Gen
+	variant := c.Index % 4
+	s.Kind = fmt.Sprintf("mini-fork/%s", []string{"vote-receipt", "spend+receipt", "veto", "receipt+chained-spend"}[variant])
+	fail := func(what string, err error) { c.Inconclusive("harness: mini-fork %s: %v", what, err) }
+	pay := func(p *chainkit.Blk, outs ...chainkit.Out) *types.Tx {
+		fd := s.fund(p, nil)
+		if fd == nil {
+			return nil
+		}
+		g.Reserved[fd.ID] = true
+		var sum uint64
+		for _, o := range outs {
+			sum += o.Amount
+		}
+		outs = append(outs, chainkit.Out{Asset: chainkit.BTM, Amount: fd.Amount - sum - Fee, Program: chainkit.RandProg(rng)})
+		return s.W.SignedTx([]*chainkit.UTXO{fd}, outs)
+	}
+	wp := func() []byte { return g.walletProg().CP.ControlProgram }
+	// common chain
+	first := pay(s.Tree.Root, chainkit.Out{Asset: chainkit.BTM, Amount: 900000000, Program: wp()},
+		chainkit.Out{Asset: chainkit.BTM, Amount: 300000000, Program: wp(), Vote: net.VoteKey(rng.Intn(net.P.NKeys))})
+	if first == nil {
+		fail("fund", fmt.Errorf("none"))
+		return
+	}
+	n1, v1 := chainkit.Outputs(first)[0], chainkit.Outputs(first)[1]
+	g.Reserved[n1.ID], g.Reserved[v1.ID] = true, true
+	cur, err := g.Block(s.Tree.Root, []*types.Tx{first}, 0, 0, nil)
+	if err != nil {
+		fail("block 1", err)
+		return
+	}
+	for h := 2; h <= 4; h++ {
+		if cur, err = g.Block(cur, nil, 1, 0, nil); err != nil {
+			fail("common", err)
+			return
+		}
+	}
+	common := cur
+	var scripted []*types.Tx
+	switch variant {
+	case 0:
+		scripted = append(scripted, pay(common, chainkit.Out{Asset: chainkit.BTM, Amount: 200000000, Program: wp(), Vote: net.VoteKey(rng.Intn(net.P.NKeys))}))
+	case 1:
+		scripted = append(scripted, s.W.SignedTx([]*chainkit.UTXO{n1}, []chainkit.Out{{Asset: chainkit.BTM, Amount: 400000000, Program: wp()},
+			{Asset: chainkit.BTM, Amount: n1.Amount - 400000000 - Fee, Program: chainkit.RandProg(rng)}}))
+	case 2:
+		scripted = append(scripted, s.W.SignedTx([]*chainkit.UTXO{v1}, []chainkit.Out{{Asset: chainkit.BTM, Amount: v1.Amount - Fee, Program: chainkit.RandProg(rng)}}))
+	case 3:
+		t1 := pay(common, chainkit.Out{Asset: chainkit.BTM, Amount: 500000000, Program: wp()})
+		if t1 != nil {
+			o := chainkit.Outputs(t1)[0]
+			scripted = append(scripted, t1, s.W.SignedTx([]*chainkit.UTXO{o}, []chainkit.Out{{Asset: chainkit.BTM, Amount: o.Amount - Fee, Program: chainkit.RandProg(rng)}}))
+		}
+	}
+	for _, tx := range scripted {
+		if tx == nil {
+			fail("fund", fmt.Errorf("none"))
+			return
+		}
+	}
+	a1, err := g.Block(common, scripted, 0, 0, nil)
+	if err != nil {
+		fail("A1", err)
+		return
+	}
+	b1, err := g.Block(common, nil, 1, 1, nil)
+	if err != nil {
+		fail("B1", err)
+		return
+	}
+	b2, err := g.Block(b1, nil, 1, 0, nil)
+	if err != nil {
+		fail("B2", err)
+		return
+	}
+	a2, err := g.Block(a1, nil, 1, 0, nil)
+	if err != nil {
+		fail("A2", err)
+		return
+	}
+	a3, err := g.Block(a2, nil, 1, 0, nil)
+	if err != nil {
+		fail("A3", err)
+		return
+	}
+	s.Ix = NewIndex(s.Tree)
+	c.Journal(map[string]interface{}{"history": s.Kind, "shape": s.Tree.Shape()})
+	c.Distinct("%s|%s", s.Kind, s.Tree.Shape())
+	for k, v := range g.Stats {
+		c.Count(k, int64(v))
+	}
+	seq := append(common.Path()[1:], a1, b1, b2, a2, a3)
+	for step, b := range seq {
+		if !s.Deliver(b) {
+			return
+		}
+		if !s.Observe(step, true, false, step == len(seq)-1) {
+			return
+		}
+	}
+	c.Count("histories_mini_fork", 1)
+	if c.WantSample() {
+		c.Sample(map[string]interface{}{"history": s.Kind, "delivery": Names(seq), "final_best": BlkName(s.At)})
+	}
+	if f, ok := obs.(Finisher); ok {
+		f.Finish(s)
+	}
+}
